@@ -8,6 +8,7 @@
 -/
 import NV.Lemmas.Router
 import NV.Gen.Router
+import NV.Lemmas.RouterUci
 namespace NV.C20
 open NV NV.Router NV.Tmpl
 
@@ -755,6 +756,28 @@ theorem unclean_restart_merlin (cfg : Cfg) (s : Sys) (o1 : Obj) (s1 : Sys)
 /-- non-vacuity: the unclean history exists on a merlin router with a user script -/
 example : (afterCrash .merlin (rowCfg ⟨.merlin, true, true, 0, true⟩) (rowState ⟨.merlin, true, true, 0, true⟩)).isSome = true := by
   decide +kernel
+
+/-! ## openwrt: the uci store after Setup; Restore (every pre-existing state) -/
+
+/-- **RESTORE_UNDOES (openwrt, uci store, non-cache mode), partial**: for EVERY pre-existing staged
+uci store — any forwarder list as uci holds it (non-empty values without white space), any DHCP
+option list of the user's own — whatever the service commands do (their results are not assumed),
+after Setup followed by Restore the committed store is, key by key, what the user had: the
+forwarders NextDNS removed are back, the DHCP option it added is gone, nothing else changed.
+`_partial`: under the hypothesis that the user's DHCP options do not already contain
+`6,<router ip>` — the other case is the recorded finding
+(`restore_undoes_openwrt_dhcp_option_violated`). The store is equal as a MAP, not as a list (the
+re-added forwarders move to the end; example in NV.Lemmas.RouterUci). -/
+theorem restore_undoes_openwrt_uci_partial (c : FwConsts) (o : Obj) (s : Sys) (ip : Bytes)
+    (hcache : o.cache = false) (hip : uciGet s kLanIP = some ip)
+    (hopt : ∀ ds, aget s.uciS kDhcpOpt = some ds →
+      ds ≠ [] ∧ containsSub (b!"6," ++ ip) (trimSpace (joinSp ds)) = false)
+    (hfwd : ∀ vs, aget s.uciS kServer = some vs → vs ≠ [] ∧ ∀ v ∈ vs, v ≠ [] ∧ ∀ ch ∈ v, isWs ch = false)
+    (hrender : (writeTemplate c o s).1 = true) :
+    let r1 := owSetupDNSMasq c o s
+    let r2 := owRestore c r1.2.1 r1.2.2
+    ∀ k, aget r2.2.2.uciC k = aget s.uciS k :=
+  ow_setup_restore_uci_staged c o s ip hcache hip hopt hfwd hrender
 
 /-! ## recorded findings as negative witnesses (the full statements are false of the code) -/
 
